@@ -44,6 +44,9 @@ type Conn struct {
 	in          chan *Line
 	out         chan string
 	connected   bool
+	// Guards connected on its own, so that Connected() can be called from
+	// handlers while Close() holds mu and waits for them to finish.
+	connMu sync.RWMutex
 	// Incremented for every connection attempt, so that the goroutines of
 	// a finished connection can't tear down the one that replaced it.
 	generation uint64
@@ -251,9 +254,16 @@ func Client(cfg *Config) *Conn {
 // an IRC server. It becomes true when the TCP connection is established,
 // and false again when the connection is closed.
 func (conn *Conn) Connected() bool {
-	conn.mu.RLock()
-	defer conn.mu.RUnlock()
+	conn.connMu.RLock()
+	defer conn.connMu.RUnlock()
 	return conn.connected
+}
+
+// setConnected updates the connected flag. It is called with mu held.
+func (conn *Conn) setConnected(connected bool) {
+	conn.connMu.Lock()
+	conn.connected = connected
+	conn.connMu.Unlock()
 }
 
 // Config returns a pointer to the Config struct used by the client.
@@ -434,7 +444,7 @@ func (conn *Conn) internalConnect(ctx context.Context) error {
 	}
 
 	conn.postConnect(ctx, true)
-	conn.connected = true
+	conn.setConnected(true)
 	return nil
 }
 
@@ -641,7 +651,7 @@ func (conn *Conn) close(gen uint64) error {
 		return nil
 	}
 	logging.Info("irc.Close(): Disconnected from server.")
-	conn.connected = false
+	conn.setConnected(false)
 	err := conn.sock.Close()
 	if conn.die != nil {
 		conn.die()
